@@ -213,8 +213,8 @@ class URLInfo(object):
         # The user info is only percent-encoded lazily by the `url` accessor.
         # Reject text that cannot be encoded (lone surrogates) here, so that
         # reading an attribute of a parsed URL never fails.
-        normalize_username(info.username)
-        normalize_password(info.password)
+        normalize_username(info.username, encoding=encoding)
+        normalize_password(info.password, encoding=encoding)
 
         info.host = host
         info.hostname = hostname
@@ -322,11 +322,13 @@ class URLInfo(object):
             parts = [self.scheme, '://']
 
             if self.username:
-                parts.append(normalize_username(self.username))
+                parts.append(normalize_username(
+                    self.username, encoding=self.encoding))
 
             if self.password:
                 parts.append(':')
-                parts.append(normalize_password(self.password))
+                parts.append(normalize_password(
+                    self.password, encoding=self.encoding))
 
             if self.username or self.password:
                 parts.append('@')
